@@ -267,3 +267,28 @@ PROPS["C06"] = dict(
     assumptions=COMMON_ASSUME + ["Badger is an API-level model (ordered key/value set; View/Update/iterators with prefix, reverse and seek; WriteBatch applied in call order at Flush)",
                                  "the reference is etcd MemoryStorage driven as the raft contract prescribes (append; hard state only if non-empty; snapshot only if non-empty), not the repository's memoryWAL.Save, which overwrites the hard state with an empty one"],
 )
+
+PROPS["C12"] = dict(
+    level="model_checking",
+    technique="bounded symbolic execution of go/ssa (gosmt): a one-node server assembled from the real components is executed on every request shape in the bound; request shapes are path decisions (no solver variables: verdict by exhaustive path enumeration of the symbolic executor), panics / fatal logs / deadlocks are the violations",
+    explanation="real RPC handlers of DataManager, Search and DatasetManager over the real DatasetManager, Dataset, partitions, RaftGroup ready loops, badgerWAL (Badger API model), Allocator and cluster.Conn; raft nodes are harness nodes that commit each proposal immediately, so every proposal is applied by the real ready loop (an apply error is log.Fatal there)",
+    runs={
+        "quick": [
+            dict(pkg="./services", entry="VerifC12", bounds="rpclo=0,rpchi=2", reach=["dataset-created", "handler-returned", "end"]),
+            dict(pkg="./services", entry="VerifC12", bounds="rpclo=3,rpchi=8,mindim=1,minp=1,minr=1,spaces=1,maxdim=1", reach=["dataset-created", "handler-returned", "end"]),
+            dict(pkg="./services", entry="VerifC12", bounds="rpclo=9,rpchi=16,maxdim=1", reach=["dataset-created", "handler-returned", "end"]),
+        ],
+        "thorough": [
+            dict(pkg="./services", entry="VerifC12", bounds="rpclo=0,rpchi=2,valshapes=3,metashapes=2", reach=["dataset-created", "handler-returned", "end"]),
+            dict(pkg="./services", entry="VerifC12", bounds="rpclo=3,rpchi=8,mindim=1,minp=1,minr=1,spaces=1,maxdim=2", reach=["dataset-created", "handler-returned", "end"]),
+            dict(pkg="./services", entry="VerifC12", bounds="rpclo=9,rpchi=16,maxdim=2,valshapes=3", reach=["dataset-created", "handler-returned", "end"]),
+            dict(pkg="./services", entry="VerifC12", bounds="rpclo=0,rpchi=16,mindim=1,minp=1,minr=1,spaces=1,maxdim=1,det=0,idshapes=2,vecshapes=2", max_seconds=3000, reach=["dataset-created", "handler-returned", "end"]),
+        ],
+    },
+    outside="the gRPC framing layer and a live multi-node process; requests in sequence beyond create + optional insert + one hostile request + list; over-long metadata (a C08 known finding); oversized batches beyond the cap check itself; a restart that replays the log (every proposal is applied once by the real ready loop; replay on a fresh replica is not re-executed); one schedule per request (deterministic scheduling) except in the last thorough run",
+    assumptions=COMMON_ASSUME + ["etcd raft nodes are harness nodes (verifrt.Hook) committing each proposal at once; natively the replay uses real single-member raft nodes",
+                                 "Badger is the API-level model; gRPC dialling fails in the model (a one-node dataset search that dials its own address returns an error)",
+                                 "SIMD wrappers are modelled by their Go part (&a[0], &b[0]) followed by the portable kernel"],
+    replay_attempts=1,
+    replays_per_signature=1,
+)
